@@ -121,7 +121,7 @@ func c12Scope(r *core.Report) ([]*core.Func, map[*core.Func]*core.Func, int) {
 func C12(r *core.Report) {
 	r.Explanation = "Crash-idiom inventory over every repository function reachable from the parser entry points (decoders, CAR reader, compact index readers in three formats, typed index readers, index metadata, sig-exists readers, block-time index, address-index log and manifest, transaction-status parsers, CAR section parsers, frame reassembly, block accumulator): " +
 		"R1 single-value type assertions, R2 index and slice expressions, R3 fixed-width binary decodes (binary.*Endian.UintN / PutUintN and the repo's BtoUintN helpers) and slice-to-array conversions, R4 make() sized by a non-constant value, R5 explicit panic, R6 integer division by a non-constant - each site must be discharged by a dominating guard found on the CFG (length facts, comma-ok, range index, loop bounds, array types, lengths of slices made in the function), or be listed with its invariant in tables/c12_exempt.json; an undischarged unlisted site is a violation. " +
-		"R9 a data-driven loop (no counter) goes round again only after the error of the read in it was found to be nil: a truncated file, where the read keeps answering (0, io.EOF), ends the loop instead of spinning. Decides: absence of unguarded instances of these idioms in the analysed functions. R10 Meta.MarshalBinary rejects only what the decoder cannot produce (lengths above a limit >= 255): the manifest re-serialises parsed metadata through Meta.Bytes, which panics on a marshal error. Not decided: termination beyond R9, memory proportionality beyond idiom R4, panics inside dependencies (cbor, cid, solana-go, zstd, protobuf), arithmetic overflow."
+		"R9 a data-driven loop (no counter) goes round again only after the error of the read in it was found to be nil: a truncated file, where the read keeps answering (0, io.EOF), ends the loop instead of spinning. Decides: absence of unguarded instances of these idioms in the analysed functions. R10 Meta.MarshalBinary rejects only what the decoder cannot produce (lengths above a limit >= 255): the manifest re-serialises parsed metadata through Meta.Bytes, which panics on a marshal error. R11 the byte count of binary.Uvarint / Varint is used (added to a cursor, sliced with, returned) only where it is known to be positive - a test that excludes 0 only lets an overlong varint (negative count) through; exempt: the count converted to an unsigned type and added to a length that is compared with an upper limit before every successful return. Not decided: termination beyond R9, memory proportionality beyond idiom R4, panics inside dependencies (cbor, cid, solana-go, zstd, protobuf), arithmetic overflow."
 	r.Assumptions = []string{"facts are matched syntactically (same printed expression) and must be fresh (no reassignment between guard and use)", "the exemption table entries were confirmed by reading; each names one construct and its invariant"}
 	p := r.Prog
 	fns, reach, nroots := c12Scope(r)
@@ -283,6 +283,7 @@ func C12(r *core.Report) {
 	c12Invariants(r)
 	c12KindByte(r)
 	c12ReadLoopsLeaveOnError(r, fns)
+	c12VarintCountUsedOnlyWhenPositive(r, fns)
 	c12MarshalAcceptsWhatWasParsed(r)
 	// stale table entries are reported (not as violations) so the table stays minimal
 	var stale []string
@@ -661,6 +662,12 @@ func sizeBounded(p *core.Prog, f *core.Func, g *core.Graph, n *core.GNode, a ast
 
 func sizeBoundedDepth(p *core.Prog, f *core.Func, g *core.Graph, n *core.GNode, a ast.Expr, depth int) (bool, string) {
 	info := f.Pkg.TypesInfo
+	// what is left of a CAR section after its CID: int64(L) - int64(c) with L the length ReadSectionLength returned (at most
+	// util.MaxAllowedSectionSize: C12.R7 carreader) and the difference known not to be negative - directly, through a local,
+	// or as a field of the struct a helper returned
+	if sectionRemainderBounded(p, f, g, n, a, 0) {
+		return true, "size is a section length bounded by ReadSectionLength minus the CID length, checked not to be negative"
+	}
 	// sums and products whose operands are each bounded on their own: constants, values of 8/16-bit types, lengths of
 	// existing buffers, min(K, x) with a constant K, and locals assigned once from such expressions
 	if boundedArith(p, f, a, 0) {
@@ -1596,4 +1603,75 @@ func isMinHelper(p *core.Prog, h *core.Func) bool {
 		}
 	}
 	return n >= 2
+}
+
+// sectionRemainderBounded: see sizeBoundedDepth.
+func sectionRemainderBounded(p *core.Prog, f *core.Func, g *core.Graph, n *core.GNode, a ast.Expr, depth int) bool {
+	if depth > 3 || n == nil {
+		return false
+	}
+	info := f.Pkg.TypesInfo
+	a = core.Unparen(a)
+	// x.F of a struct returned by a helper: decided in the helper, at its success returns
+	if sel, ok := a.(*ast.SelectorExpr); ok {
+		h, val := helperLiteralField(p, f, sel.X, sel.Sel.Name)
+		if h == nil {
+			return false
+		}
+		hg := p.Graph(h)
+		cnt := 0
+		for _, rn := range hg.Returns() {
+			if definitelyErrorReturn(hg, h, rn) {
+				continue
+			}
+			cnt++
+			if !sectionRemainderBounded(p, h, hg, rn, val, depth+1) {
+				return false
+			}
+		}
+		return cnt > 0
+	}
+	id, ok := a.(*ast.Ident)
+	if !ok {
+		return false
+	}
+	v, isVar := info.Uses[id].(*types.Var)
+	if !isVar || v.IsField() || isParamOf(f.Root(), v) {
+		return false
+	}
+	d := singleDef(f.Root(), v)
+	if d == nil {
+		return false
+	}
+	be, isBin := core.Unparen(d).(*ast.BinaryExpr)
+	if !isBin || be.Op != token.SUB {
+		return false
+	}
+	// the minuend is the length returned by ReadSectionLength
+	lo := core.ObjOf(info, stripConvs(info, be.X))
+	fromRSL := false
+	if lo != nil {
+		ast.Inspect(f.Root().Body, func(m ast.Node) bool {
+			if as, isAs := m.(*ast.AssignStmt); isAs && len(as.Rhs) == 1 && len(as.Lhs) >= 1 && core.ObjOf(info, as.Lhs[0]) == lo {
+				if c, isCall := core.Unparen(as.Rhs[0]).(*ast.CallExpr); isCall && strings.HasSuffix(core.CalleeName(info, c), "carreader.ReadSectionLength") {
+					fromRSL = true
+				}
+			}
+			return true
+		})
+	}
+	if !fromRSL {
+		return false
+	}
+	// v >= 0 is known at n: a fresh fact v < 0 false / v >= 0 true
+	for _, fc := range g.FactsAt(n) {
+		cb, isCmp := core.Unparen(fc.Expr).(*ast.BinaryExpr)
+		if !isCmp || fc.Tag != nil || core.ObjOf(info, cb.X) != types.Object(v) {
+			continue
+		}
+		if c, isC := core.ConstInt(info, cb.Y); isC && c == 0 && ((cb.Op == token.LSS && !fc.Truth) || (cb.Op == token.GEQ && fc.Truth)) && g.FactFresh(fc, n) {
+			return true
+		}
+	}
+	return false
 }
